@@ -12,7 +12,7 @@ LEVEL = "exploration"
 RULE = ("Hypothesis-generated pushes: content size from a boundary table around chunk size c and maxdata m "
         "{0,1,c-1,c,c+1,2c,m-9,m-8,m-7,m,3.5c,..} U small ints U 1-3 MiB; maxdata from {4 KiB..1 MiB} U ints; device path (non-ASCII, up to ~1000 bytes); "
         "st_mode; mtime (0 and 32-bit); source in {temp file, BytesIO, temp directory with 1-4 files (cwd elsewhere or inside)}; callback in "
-        "{none, recording, raising}; withheld sync OKAY; both APIs. Oracle: the simulator's sync service reassembles SEND/DATA/DONE; sizes judged per packet; "
+        "{none, recording, raising Exception, raising a BaseException subclass, re-entering the device with stat() (sync)}; withheld sync OKAY; both APIs. Oracle: the simulator's sync service reassembles SEND/DATA/DONE; sizes judged per packet; "
         "metamorphic: host packets with callback == without. Non-trivial: >=2 host WRTEs, or a directory, or a callback. Distinct = case hash.")
 ASSUMPTIONS = ["device simulator sync service per AOSP SYNC.TXT", "virtual clock for mtime=0"]
 
@@ -52,7 +52,7 @@ def cases(draw):
         src = {"kind": kind, "content": {"pat": draw(st.binary(min_size=1, max_size=11)), "n": draw(size)}}
     op = {"op": "push", "src": src, "path": path, "mode": mode,
           "mtime": draw(st.one_of(st.just(0), st.just(0), sc.u32().filter(lambda x: x != 0))),
-          "cb": draw(st.sampled_from([None, "rec", "raise"]))}
+          "cb": draw(st.sampled_from([None, "rec", "raise", "raise-base", "reenter"]))}
     if kind == "dir":
         op["chdir_into"] = draw(st.booleans())
     dev = {"maxdata": m, "rids": draw(sc.rid_list(6)), "lag": draw(st.lists(st.integers(0, 2), max_size=3)),
@@ -119,7 +119,7 @@ def check_case(case):
         if v:
             return v, info
         # returned normally => the sync OKAY had been completely delivered
-        s = out.op_streams[-1][-1]
+        s = out.op_streams[-1][0]
         if not s.written or b"OKAY" not in b"".join(s.written)[-8:]:
             return Violation("returned-before-sync-okay", "push returned normally but the device's OKAY record was not delivered; delivered=%r" % s.written[-2:]), info
     size_total = sum(len(r["content"]) for r in sim.pushes)
@@ -136,6 +136,12 @@ def check_case(case):
                 return Violation("callback-byte-counts", "callback saw %d bytes for %r, file has %d" % (sum(n for n, _ in calls), dpath, len(rec["content"]))), info
             if any(t != len(rec["content"]) for _, t in calls):
                 return Violation("callback-total", "callback total_bytes %r != size %d" % (sorted(set(t for _, t in calls)), len(rec["content"]))), info
+        for r_ in out.extra.get("reenter_results", []):
+            if tuple(r_) != (0, 0, 0):
+                return Violation("reentrant-stat-wrong", "stat() issued from inside the progress callback returned %r" % (r_,)), info
+        if op["cb"] == "reenter" and out.api == "sync" and size_total > 0 and not out.extra.get("reenter_results"):
+            return Violation("reentrant-stat-failed", "stat() issued from inside the progress callback did not complete (its exception is swallowed by push)"), info
+    if op["cb"] and not (op["cb"] == "reenter" and out.api == "sync"):
         # presence/failure of the callback does not change what is sent
         case2 = dict(case)
         op2 = dict(op)
